@@ -1225,9 +1225,14 @@ impl ObjectFile {
     pub fn link(mut a_obj: Self, b_obj: Self) -> Result<Self, AsmErr> {
         let Self { block_map: b_block_map, sym: b_sym } = b_obj;
 
+        // Blocks of assembled object files do not record where they come from in a source,
+        // so block overlaps are reported at an empty span at the start
+        // (an error's span list must never be empty, see `ErrSpan`).
+        const NO_SOURCE: Range<usize> = 0..0;
+
         for (addr, block) in b_block_map {
             if a_obj.block_map.insert(addr, block).is_some() {
-                return Err(AsmErr::new(AsmErrKind::OverlappingBlocks, []));
+                return Err(AsmErr::new(AsmErrKind::OverlappingBlocks, NO_SOURCE));
             }
         }
 
@@ -1239,7 +1244,7 @@ impl ObjectFile {
             let br = b_st .. (b_st + b_bl.len() as u16);
             ranges_overlap(ar, br)
         }) {
-            return Err(AsmErr::new(AsmErrKind::OverlappingBlocks, []));
+            return Err(AsmErr::new(AsmErrKind::OverlappingBlocks, NO_SOURCE));
         }
 
         // Merge symbol tables:
